@@ -120,6 +120,7 @@ def run(ctx):
     except build.BuildError as e:
         ctx.tie_broken.append('replay driver: ' + str(e)[:300]); rexe = None
     cfgs = ['base', 'dbg8', 'rel'] + (['chk', 'dbg16'] if thorough else [])
+    build.warm(cfgs, [('move', ['h_move.cpp'], {})])
     exe = {c: build.build_harness('move', c, ['h_move.cpp']) for c in cfgs}
     cases = []
     for ty in TYPES:
